@@ -142,7 +142,42 @@ func TestVerifC08Store(t *testing.T) {
 		if !cs.Want(id) {
 			continue
 		}
-		r := root.Fork(uint64(k))
+		c08StoreCase(t, cs, id, root.Fork(uint64(k)), k, false)
+	}
+	if err := cs.Write(); err != nil {
+		t.Fatal(err)
+	}
+}
+
+// Long histories: runs of hundreds of heights WITHOUT a validator change (one SAdvance op = that
+// many empty blocks), so that LoadValidators has to replay hundreds of proposer-priority
+// increments from the last stored set — also across the checkpoint the store writes every
+// valSetCheckpointInterval heights — and PruneStates has to rebuild the set of a height far
+// from the last change.  The sets of all heights are recorded while the chain runs; the case
+// carries (and LoadValidators is asked for) a sample of them: around every op, around the
+// checkpoint, at distances around 128/256/384/512 from the places where a set was stored, the
+// far end, and random heights in between.
+func TestVerifC08StoreLong(t *testing.T) {
+	root := vg.NewRand(vg.Seed() ^ 0xc08e)
+	cs := vg.NewCases("C08", "c08_storelong", "TM.C08.Exec")
+	old := vg.ShardSize
+	vg.ShardSize = 1 // a long history costs seconds in Coq: one file each, evaluated in parallel
+	defer func() { vg.ShardSize = old }()
+	n := vg.Scale(8, 200)
+	for k := 0; k < n; k++ {
+		id := cs.NextID()
+		if !cs.Want(id) {
+			continue
+		}
+		c08StoreCase(t, cs, id, root.Fork(uint64(k)), k, true)
+	}
+	if err := cs.Write(); err != nil {
+		t.Fatal(err)
+	}
+}
+
+func c08StoreCase(t *testing.T, cs *vg.Cases, id int, r *vg.Rand, k int, long bool) {
+	{
 		ks := c08Keys(r, 6)
 		// initial height: 1, or shortly before a multiple of the checkpoint interval so that the
 		// history straddles a checkpoint
@@ -158,10 +193,22 @@ func TestVerifC08Store(t *testing.T) {
 			initial = 2 + r.Int63n(50)
 		}
 		nGen := 1 + r.Intn(4)
+		below := 0 // long histories: distance of InitialHeight below a checkpoint height
+		if long {
+			// every third long history starts 130..330 heights below a checkpoint height
+			switch k % 3 {
+			case 0:
+				below = 130 + r.Intn(130)
+				initial = int64(1+r.Intn(2))*valSetCheckpointInterval - int64(below)
+			case 1:
+				initial = 1
+			}
+			nGen = 2 + r.Intn(3)
+		}
 		// F1 class (directed): genesis powers (1, 100); a third validator with power 100 joins;
 		// two blocks later one of the large validators shrinks to 10; then blocks without
 		// updates: a few heights later RescalePriorities fires between two heights
-		directed := k%4 == 0
+		directed := k%4 == 0 && !long
 		if directed {
 			nGen = 2
 		}
@@ -171,6 +218,9 @@ func TestVerifC08Store(t *testing.T) {
 			p := c08StorePower(r)
 			if directed {
 				p = []int64{1, 100 + r.Int63n(3)}[i]
+			}
+			if long && r.Chance(70) { // small distinct powers: a rotation with a long period
+				p = 1 + int64(i) + r.Int63n(12)
 			}
 			gen.Validators = append(gen.Validators, types.GenesisValidator{Address: ks[i].addr, PubKey: ks[i].pub, Power: p})
 			genT = append(genT, vg.Tup(vg.N(uint64(i)), vg.Z(p)))
@@ -192,9 +242,57 @@ func TestVerifC08Store(t *testing.T) {
 		var opsT, resT []string
 		descr := fmt.Sprintf("InitialHeight=%d genesis(index,power)=%v; ops:", initial, genT)
 		nOps := 8 + r.Intn(vg.Scale(22, 60))
+		// long histories: op index -> number of empty blocks to advance by
+		advance := map[int]int{}
+		if long {
+			nOps = 5 + r.Intn(8)
+			runLen := func() int {
+				switch r.Intn(6) {
+				case 0: // around the powers of two of a narrow counter
+					return []int{127, 128, 129, 255, 256, 257, 383, 384, 385}[r.Intn(9)]
+				case 1:
+					return 1 + r.Intn(126)
+				default:
+					return 130 + r.Intn(vg.Scale(280, 900))
+				}
+			}
+			first := r.Intn(3)
+			advance[first] = 130 + r.Intn(vg.Scale(280, 900))
+			if below > 0 { // at least 128 heights on either side of the checkpoint
+				advance[first] = below + 128 + r.Intn(100)
+			}
+			if r.Chance(60) {
+				advance[first+1+r.Intn(nOps-first-1)] = runLen()
+			}
+		}
 		base := initial
+		marks := []int64{initial} // long histories: the heights around which the sets are observed
 		for o := 0; o < nOps; o++ {
 			tip := st.LastBlockHeight
+			marks = append(marks, tip+2)
+			if nAdv := advance[o]; nAdv > 0 {
+				code, done := uint64(0), 0
+				for ; done < nAdv && code == 0; done++ {
+					h := st.LastBlockHeight + 1
+					if st.LastBlockHeight == 0 {
+						h = st.InitialHeight
+					}
+					var ns State
+					ns, code = c08UpdateState(st, h, nil)
+					if code == 0 {
+						if err := store.Save(ns); err != nil {
+							code = 2
+						} else {
+							st = ns
+							recs = append(recs, recT{st.LastBlockHeight + 2, st.NextValidators.Copy()})
+						}
+					}
+				}
+				opsT = append(opsT, vg.App("SAdvance", vg.N(uint64(nAdv))))
+				resT = append(resT, vg.N(code))
+				descr += fmt.Sprintf(" %dxBlock(no updates, up to height %d)=%d", nAdv, st.LastBlockHeight, code)
+				continue
+			}
 			if tip > 0 && tip+1 > base && !(directed && o < 10) && r.Chance(12) { // prune
 				// PruneStates also needs the consensus params of `to`, which Save has written
 				// up to tip+1: retain heights are chosen in [base+1, tip+1]
@@ -215,6 +313,7 @@ func TestVerifC08Store(t *testing.T) {
 				opsT = append(opsT, vg.App("SPrune", vg.Z(from), vg.Z(to)))
 				resT = append(resT, vg.N(code))
 				descr += fmt.Sprintf(" PruneStates(%d,%d)=%d", from, to, code)
+				marks = append(marks, from, to)
 				continue
 			}
 			// a block
@@ -278,23 +377,58 @@ func TestVerifC08Store(t *testing.T) {
 		}
 		var recT2, loadT []string
 		descr += "; recorded:"
+		recDescr := map[int64]string{}
+		top := recs[len(recs)-1].h
+		observed := map[int64]bool{}
+		if long {
+			near := func(m int64) {
+				for e := int64(-2); e <= 2; e++ {
+					observed[m+e] = true
+				}
+			}
+			marks = append(marks, top, base)
+			for _, m := range marks {
+				near(m)
+				for _, d := range []int64{128, 256, 384, 512} {
+					if m+d <= top {
+						near(m + d)
+					}
+				}
+			}
+			for c := initial / valSetCheckpointInterval; c*valSetCheckpointInterval <= top; c++ {
+				if c > 0 {
+					near(c * valSetCheckpointInterval)
+				}
+			}
+			for i := 0; i < 16; i++ {
+				observed[initial+r.Int63n(top-initial+1)] = true
+			}
+		}
 		for _, rc := range recs {
+			if long && !observed[rc.h] {
+				continue
+			}
 			recT2 = append(recT2, vg.Tup(vg.Z(rc.h), c08ISet(ks, rc.vs)))
-			if rc.h >= base {
+			recDescr[rc.h] = c08SetDescr(ks, rc.vs)
+			if rc.h >= base && !long {
 				descr += fmt.Sprintf(" h=%d:%s", rc.h, c08SetDescr(ks, rc.vs))
 			}
 		}
+		if long {
+			descr += fmt.Sprintf(" (%d heights observed out of %d; only those whose LoadValidators answer differs are listed below, as h=<height>:<loaded> WAS <recorded>)", len(recT2), len(recs))
+		}
 		descr += "; LoadValidators:"
-		top := recs[len(recs)-1].h
 		for h := initial - 1; h <= top+1; h++ {
-			if h < 0 {
+			if h < 0 || (long && !observed[h]) {
 				continue
 			}
 			vs, code := c08Load(store, h)
 			if vs != nil {
 				loadT = append(loadT, vg.Tup(vg.Z(h), vg.N(code), "(Some "+c08ISet(ks, vs)+")"))
-				if h >= base {
-					descr += fmt.Sprintf(" h=%d:%s", h, c08SetDescr(ks, vs))
+				if d := c08SetDescr(ks, vs); h >= base && !long {
+					descr += fmt.Sprintf(" h=%d:%s", h, d)
+				} else if h >= base && d != recDescr[h] {
+					descr += fmt.Sprintf(" h=%d:%s WAS %s", h, d, recDescr[h])
 				}
 			} else {
 				loadT = append(loadT, vg.Tup(vg.Z(h), vg.N(code), "None"))
@@ -311,11 +445,18 @@ func TestVerifC08Store(t *testing.T) {
 		if directed {
 			kind = "store/dominant-leaves"
 		}
+		if long {
+			kind = "store/long-run-without-changes"
+			if initial > 1000 && initial < top-1 && (top-1)/valSetCheckpointInterval > initial/valSetCheckpointInterval {
+				kind += "/across-checkpoint"
+			}
+		}
+		ctor := "CStore"
+		if long {
+			ctor = "CStoreSampled"
+		}
 		cs.Add(id, kind, len(recs) > 4,
-			vg.App("CStore", vg.HxL(addrT), vg.Z(initial), vg.L(genT), vg.L(opsT), vg.L(resT), vg.L(recT2), vg.L(loadT)),
+			vg.App(ctor, vg.HxL(addrT), vg.Z(initial), vg.L(genT), vg.L(opsT), vg.L(resT), vg.L(recT2), vg.L(loadT)),
 			descr)
-	}
-	if err := cs.Write(); err != nil {
-		t.Fatal(err)
 	}
 }
